@@ -118,7 +118,8 @@ def main():
                             counts['evict_behaviours'] += 1
                             sweep(jar)
                     mode = a['mode']
-                    kind = 'k' if is_set else 'kvi'[(bi + len(hist)) % 3]
+                    # (items twice as often as keys / values: pairs are where a key and a value can come apart)
+                    kind = 'k' if is_set else 'ikiv'[(bi + len(hist)) % 4]
                     kw = dict(min=bnd(a['k']), max=bnd(a['v']), excludemin=a['xmin'], excludemax=a['xmax'])
                     if mode == 'iter':
                         f = {'k': 'iterkeys', 'v': 'itervalues', 'i': 'iteritems'}[kind]
